@@ -35,9 +35,19 @@ func c16NewConn(limit uint64) *c16Conn {
 }
 
 func c16RunH2(conn *c16Conn, tc *verifh.C01FieldCase) (fields [][2]string, err error, perr string) {
+	fields, _, err, perr = c16RunH2Again(conn, tc, false)
+	return
+}
+
+// c16RunH2Again: as c16RunH2; with again=true the SAME *http.Request is encoded a second time on
+// the connection (what RoundTripOpt's retry loop does after a GOAWAY / a refused stream: the
+// request object is handed to a connection again) and the second field list is returned too. In
+// both modes the request's header map must be left as it was (perr otherwise): a later write of
+// the same request has to find the same description, order lists included.
+func c16RunH2Again(conn *c16Conn, tc *verifh.C01FieldCase, again bool) (fields, fields2 [][2]string, err error, perr string) {
 	u, e := url.Parse(tc.RawURL)
 	if e != nil {
-		return nil, e, "bad-url"
+		return nil, nil, e, "bad-url"
 	}
 	req := &http.Request{Method: tc.Method, URL: u, Host: tc.Host, Header: tc.Header.Clone(), Proto: "HTTP/1.1", ProtoMajor: 1, ProtoMinor: 1, ContentLength: tc.CL}
 	if tc.HasBody {
@@ -53,20 +63,45 @@ func c16RunH2(conn *c16Conn, tc *verifh.C01FieldCase) (fields [][2]string, err e
 		block, err = cc.encodeHeaders(req, tc.Gzip, "", actualContentLength(req), nil)
 	})
 	if bad {
-		return nil, nil, p
+		return nil, nil, nil, p
+	}
+	if !verifh.C16SameHeader(req.Header, tc.Header) {
+		return nil, nil, nil, fmt.Sprintf("encodeHeaders changed the request's header map: %q -> %q", tc.Header, req.Header)
 	}
 	if err != nil {
-		return nil, err, ""
+		return nil, nil, err, ""
 	}
 	// a refused request sends nothing: the peer's decoder only ever sees the blocks of accepted requests
 	hf, derr := conn.dec.DecodeFull(append([]byte(nil), block...))
 	if derr != nil {
-		return nil, nil, "reference HPACK decoder rejects the block: " + derr.Error()
+		return nil, nil, nil, "reference HPACK decoder rejects the block: " + derr.Error()
 	}
 	for _, f := range hf {
 		fields = append(fields, [2]string{f.Name, f.Value})
 	}
-	return fields, nil, ""
+	if again {
+		var err2 error
+		p, bad := verifh.Safely(func() {
+			block, err2 = cc.encodeHeaders(req, tc.Gzip, "", actualContentLength(req), nil)
+		})
+		if bad {
+			return nil, nil, nil, p
+		}
+		if err2 != nil {
+			return nil, nil, nil, "second write of the same request refused: " + err2.Error()
+		}
+		hf, derr := conn.dec.DecodeFull(append([]byte(nil), block...))
+		if derr != nil {
+			return nil, nil, nil, "reference HPACK decoder rejects the block of the second write: " + derr.Error()
+		}
+		for _, f := range hf {
+			fields2 = append(fields2, [2]string{f.Name, f.Value})
+		}
+		if !verifh.C16SameHeader(req.Header, tc.Header) {
+			return nil, nil, nil, fmt.Sprintf("the second encodeHeaders changed the request's header map: %q -> %q", tc.Header, req.Header)
+		}
+	}
+	return fields, fields2, nil, ""
 }
 
 func c16H2ErrKind(err error) string {
@@ -115,8 +150,10 @@ func c16LaneH2(t *testing.T, s *verifh.Session, profile string, n int, need map[
 		} else {
 			tc.Limit = 0
 		}
+		nb := verifh.C16Neighbourise(r, tc)
 		prev = tc
-		fields, err, perr := c16RunH2(conn, tc)
+		again := r.Intn(4) == 0
+		fields, fields2, err, perr := c16RunH2Again(conn, tc, again)
 		human := fmt.Sprintf("h2 (request %d on its connection, peer limit %d) %q %q host=%q hdr=%q cl=%d body=%v/%v gzip=%v", need["connections"], tc.Limit, tc.Method, tc.RawURL, tc.Host, tc.Header, tc.CL, tc.HasBody, tc.NoBody, tc.Gzip)
 		if perr != "" {
 			left = 0 // the compression context of this connection is gone
@@ -158,6 +195,19 @@ func c16LaneH2(t *testing.T, s *verifh.Session, profile string, n int, need map[
 		if key == "err:toolarge" {
 			need["toolarge-on-this-conn"] = 1
 		}
+		if key == "ok" && len(nb) > 0 {
+			s.Count("bookkeeping-neighbour-names")
+			need["bookkeeping-neighbour-names"]++
+		}
+		if key == "ok" && again {
+			// transparent re-send: the second write of the same request object is the same field list
+			s.Count("written-twice")
+			need["written-twice"]++
+			ans2 := verifh.C01ShowFields(fields2, tc.Header[verifh.C01HeaderOrderKey])
+			good2, why2 := verifh.C01FieldOracle("h2", tc, fields2)
+			s.Observe(fmt.Sprintf("h2-again-%d", i), ans2 == ans && good2, class, false, human,
+				fmt.Sprintf("second write of the same *http.Request differs from the first: first %s second %s %s", ans, ans2, why2))
+		}
 		if left == 0 {
 			need["toolarge-on-this-conn"] = 0
 		}
@@ -183,7 +233,7 @@ func TestVerif_C16_h2fields(t *testing.T) {
 	need := map[string]int{}
 	c16LaneH2(t, s, "order", verifh.N(4000, 80000), need)
 	c16LaneH2(t, s, "plain", verifh.N(1500, 30000), need)
-	for _, b := range []string{"ok", "err:host", "err:header", "err:toolarge", "ok-after-toolarge", "header-order", "pseudo-order"} {
+	for _, b := range []string{"ok", "err:host", "err:header", "err:toolarge", "ok-after-toolarge", "header-order", "pseudo-order", "bookkeeping-neighbour-names", "written-twice"} {
 		if need[b] == 0 {
 			t.Errorf("lane did not reach bucket %q", b)
 		}
